@@ -81,6 +81,20 @@ def tasks(tier):
                    sleeper="call", sleeper_async=True, before_sleep="call", bs_async=bs,
                    max_unknown=None)
         out.append({"family": "await-points", "cfg": cfg, "entry": e, "bound": nf, "weight": 3})
+    # async on the virtual event loop: Task.cancel() between any two loop iterations, with and
+    # without attempt_timeout_s (wait_for), plus the sync attempt timeout through the owned executor
+    for init, e, at in itertools.product(BRK, ["AsyncPolicy.call", "AsyncPolicy.execute",
+                                                "AsyncRetryPolicy.execute", "AsyncPolicy0.call",
+                                                "AsyncPolicy0.execute"], [None, 2]):
+        cfg = dict(M=2, alphabet=["ok", "x:T", "r:T", "x:P"], breaker=BRK[init], loop=True,
+                   attempt_timeout=at, durs=[0, 3], dur_free=True, inject=["cancel"],
+                   sleeper="call", sleeper_async=True, before_sleep="call", bs_async=True,
+                   max_unknown=None)
+        out.append({"family": "task-cancel", "cfg": cfg, "entry": e, "bound": nf, "weight": 3})
+    for init, e in itertools.product(BRK, ["Policy.call", "Policy.execute"]):
+        cfg = dict(M=2, alphabet=ENDINGS, breaker=BRK[init], attempt_timeout=2, durs=[0, 3],
+                   dur_free=True, max_unknown=None)
+        out.append({"family": "endings-attempt-timeout", "cfg": cfg, "entry": e, "bound": 0})
     return out
 
 
